@@ -197,6 +197,26 @@ fn corpus(thorough: bool) -> Vec<String> {
             set.insert(format!("20151231T235959{}{}Z", sep, nines));
         }
     }
+    // blank-padded and short numeric fields (lenient library parsers accept them)
+    for mask in 0..32u32 {
+        let f = |bit: u32, v: u32| if mask & (1 << bit) != 0 { format!(" {}", v) } else { format!("{:02}", v) };
+        set.insert(format!("2015{}{}T{}{}{}Z", f(0, 8), f(1, 3), f(2, 1), f(3, 2), f(4, 3)));
+        set.insert(format!("2015-{}-{}T{}:{}:{}Z", f(0, 8), f(1, 3), f(2, 1), f(3, 2), f(4, 3)));
+        let g = |bit: u32, v: u32| if mask & (1 << bit) != 0 { format!("{}", v) } else { format!("{:02}", v) };
+        set.insert(format!("2015-{}-{}T{}:{}:{}Z", g(0, 8), g(1, 3), g(2, 1), g(3, 2), g(4, 3)));
+        set.insert(format!("2015{}{}T{}{}{}+0100", f(0, 8), f(1, 3), f(2, 1), f(3, 2), f(4, 3)));
+    }
+    for s in [" 0150830T123600Z", "+2015-08-30T12:36:00Z", "2015-08-30T12:36:00+1:00", "2015-08-30T12:36:00+ 100", "20150830T123600 Z", "2015\u{2212}08\u{2212}30T12:36:00Z"] {
+        set.insert(s.to_string());
+    }
+    // long fractions (digit runs beyond any machine integer)
+    for n in [13usize, 17, 18, 19, 20, 21, 22, 38, 39, 40, 64, 100, 1000, 10000] {
+        for d in ["9", "0", "1"] {
+            set.insert(format!("20150830T123600.{}Z", d.repeat(n)));
+            set.insert(format!("2015-08-30T12:36:00,{}+01:00", d.repeat(n)));
+        }
+        set.insert(format!("20150830T123600.{}5Z", "0".repeat(n)));
+    }
     // every string at edit distance 1 from six bases
     let alphabet: Vec<char> = "0123456789TZzt+-:., ".chars().chain(['é', '٢', '２']).collect();
     let bases = [
@@ -312,7 +332,7 @@ pub fn run(ctx: &Ctx) -> Report {
 
     Report {
         stats: st,
-        rule: "every value 00..99 of month, day, hour, minute, second, offset hour and offset minute (basic and extended form); 9 years x boundary instants; every day 00..32 of every month of 2015, 2016, 1900, 2000 in two forms; all 2^5 separator combinations; every offset hh(00..99) x mm(00..99) x sign (basic; extended for all in thorough); 12 zone designators; fractions of 0..12 digits with '.' and ','; every string at edit distance 1 (insert/delete/substitute over 23 characters incl. 3 non-ASCII) from six bases (thorough: also every pair of substitutions and substitution+insertion on two bases); each string is evaluated through the unstable API (value and string-to-sign line compared with the reference parser) and end to end on the header carrier (bare and space-padded) and the query carrier. states = distinct reference instants + reject class; non-trivial = distinct strings".into(),
+        rule: "every value 00..99 of month, day, hour, minute, second, offset hour and offset minute (basic and extended form); 9 years x boundary instants; every day 00..32 of every month of 2015, 2016, 1900, 2000 in two forms; all 2^5 separator combinations; every offset hh(00..99) x mm(00..99) x sign (basic; extended for all in thorough); 12 zone designators; all 2^5 combinations of blank-padded / one-digit fields in four layouts; fractions of 0..12 and 13..10000 digits with '.' and ','; every string at edit distance 1 (insert/delete/substitute over 23 characters incl. 3 non-ASCII) from six bases (thorough: also every pair of substitutions and substitution+insertion on two bases); each string is evaluated through the unstable API (value and string-to-sign line compared with the reference parser) and end to end on the header carrier (bare and space-padded) and the query carrier. states = distinct reference instants + reject class; non-trivial = distinct strings".into(),
         bounds: json!({"strings": n}),
         exhaustive: true,
         assumptions: vec![
